@@ -14,6 +14,7 @@ Geometry values become terms (python tuples, emitted as `OutCS.GT`):
     ("src", "rollContour"|"grooveContour")            self.roll.contour_line / groove.contour_line
     ("translate", g, ex, ey)                          shapely.affinity.translate(g, xoff=, yoff=)
     ("rotate", g, e)                                  shapely.affinity.rotate(g, angle=e, origin=(0, 0))
+    ("scale", g, ex, ey)                              shapely.affinity.scale(g, xfact=ex, yfact=ey, origin=(0, 0))  (a reflection for -1)
     ("reverse", g)                                    LineString(g.coords[::-1])
     ("concat", a, b)                                  np.concatenate([a.coords, b.coords]) / MultiLineString([a, b]) flattened
     ("polygon", g)                                    Polygon(<coords of g>)
@@ -293,6 +294,13 @@ class Exec:
             if set(kw) != {"angle", "origin"} or not _is_origin(kw["origin"]):
                 raise Untranslatable("rotate needs angle= and origin=(0, 0)")
             return ("rotate", self.geom(args[0]), self.scalar(kw["angle"]))
+        if real == "scale":
+            # a scaling / reflection about the origin (shapely's default origin is the centre of the bounding box)
+            if len(call.args) != 1 or set(kw) - {"xfact", "yfact", "origin"} or "origin" not in kw or not _is_origin(kw["origin"]):
+                raise Untranslatable("scale needs xfact= / yfact= and origin=(0, 0)")
+            fx = self.scalar(kw["xfact"]) if "xfact" in kw else ("nat", 1)
+            fy = self.scalar(kw["yfact"]) if "yfact" in kw else ("nat", 1)
+            return ("scale", self.geom(call.args[0]), fx, fy)
         if real == "LineString":
             if len(call.args) == 1 and not kw:
                 c = self.coords(call.args[0])
@@ -347,7 +355,7 @@ class Exec:
             return n.id in self.geo
         if isinstance(n, ast.Call):
             f = n.func
-            if isinstance(f, ast.Name) and (self.shp.get(f.id) in ("translate", "rotate", "LineString", "Polygon", "clip_by_rect",
+            if isinstance(f, ast.Name) and (self.shp.get(f.id) in ("translate", "rotate", "scale", "LineString", "Polygon", "clip_by_rect",
                                                                     "remove_repeated_points")
                                             or f.id in self.refine_names):
                 return True
@@ -901,6 +909,8 @@ def lean_term(t):
         return f"(.translate {lean_term(t[1])} {pyexpr.lean_expr(t[2])} {pyexpr.lean_expr(t[3])})"
     if k == "rotate":
         return f"(.rotate {lean_term(t[1])} {pyexpr.lean_expr(t[2])})"
+    if k == "scale":
+        return f"(.scale {lean_term(t[1])} {pyexpr.lean_expr(t[2])} {pyexpr.lean_expr(t[3])})"
     if k in ("reverse", "polygon", "refine"):
         return f"(.{k} {lean_term(t[1])})"
     if k == "concat":
